@@ -134,14 +134,6 @@ Definition set_cur w h s :=
   {| s_worlds := s_worlds s; s_cache := s_cache s; s_next := s_next s; s_curw := w;
      s_curh := h; s_inh := s_inh s;
      s_reacts := s_reacts s |}.
-Definition set_last l s :=
-  {| s_worlds := s_worlds s; s_cache := s_cache s; s_next := s_next s; s_curw := s_curw s;
-     s_curh := s_curh s; s_last := l; s_running := s_running s; s_inh := s_inh s;
-     s_reacts := s_reacts s |}.
-Definition set_running r s :=
-  {| s_worlds := s_worlds s; s_cache := s_cache s; s_next := s_next s; s_curw := s_curw s;
-     s_curh := s_curh s; s_last := s_last s; s_running := r; s_inh := s_inh s;
-     s_reacts := s_reacts s |}.
 Definition set_inh b s :=
   {| s_worlds := s_worlds s; s_cache := s_cache s; s_next := s_next s; s_curw := s_curw s;
      s_curh := s_curh s; s_inh := b;
